@@ -235,6 +235,9 @@ func jsonExpr(n *e1.Node) string {
 		for _, p := range n.Sub {
 			s += p.S
 		}
+		// bodies are decoded with an evaluation context, so JSON strings are templates: literal
+		// introducers are written escaped, as in the native syntax
+		s = strings.NewReplacer("${", "$${", "%{", "%%{").Replace(s)
 		return fmt.Sprintf("%q", s)
 	}
 	panic("jsonExpr: unsupported literal " + n.K)
